@@ -238,3 +238,11 @@ if C_QUOTERS:
                  raises=(MemoryError,), loops={0: _CQ_LOOP}, post="(result is not val) or G_same",
                  props=("C05", "C01", "C02", "C04", "C19"),
                  note="stream simulation of the compiled quoter against spec_quote.q_step_cp"))
+
+_ALLQ = CONST(*PY_QUOTERS.values())
+add(Lemma(spec_quote.lemma_canonical_is_fixed, [("quoter", _ALLQ), ("B", BYTES), ("p", INT)],
+          requires=spec_quote.requoting, props=("C03", "C04"),
+          note="a canonical unit is re-emitted unchanged by every re-quoting quoter"))
+add(Lemma(spec_quote.lemma_value_preserved, [("quoter", _ALLQ), ("B", BYTES), ("p", INT)],
+          requires=spec_quote.lemma_requires, props=("C02",),
+          note="units decode to the consumed value; protected delimiters keep their literal/escaped status"))
